@@ -466,6 +466,12 @@ class Host(HostBase):
         if isinstance(v, Term):
             if self.is_strlike(v) and isinstance(idx, SliceV):
                 return Term("strslice", (v, idx.start, idx.stop, idx.step), self.ctx.new_id())
+            if v.op == "strmeth" and len(v.args) > 1 and v.args[1] in ("splitlines", "split", "rsplit") and not isinstance(idx, SliceV):
+                # a list whose length depends on the text: "".splitlines() is empty, x.split(sep) has at least one
+                # element, nothing more is known (A1)
+                always = v.args[1] != "splitlines" and isinstance(idx, Const) and idx.value in (0, -1)
+                if not always and self.ctx.choose(("split-item", v.id, self.key_desc(idx)), ["item", "IndexError"]) != "item":
+                    raise self.raise_("IndexError", "list index out of range", node)
             return Term("getitem", (v, idx), self.ctx.new_id())
         if isinstance(v, Source):
             if isinstance(idx, SliceV):
